@@ -315,6 +315,102 @@ def run(check, mirror, tier):
                                      known_predicates=KNOWN_PRED, prefer=lambda v: z3.And(v["int_digits"] == 0, v["frac_digits"] >= 1, v["frac_digits"] <= 99)))
     for ki, kf in ((1, 1), (5, 33), (1, 34), (1, 35), (1, 40)):
         mk_literal(ki, kf)
+
+    # --- typed input data: xsd:integer / xsd:decimal / xsd:double text -> number ----------------------------------------------------
+    crate_feel = MirCrate(mirror, ["feel"], overflow_checks=True)
+    check.bounds.append("typed input: Value::try_from_xsd_{integer,decimal,double} on texts `<1..20 integer digits>[.<1..34 fraction digits>]` (digits symbolic, optional minus)")
+    check.assumptions.append("typed input: the decimal library reads the text it is given exactly (trusted C code); decided here: the text handed to it is the input text, "
+                             "unchanged; a detour through a binary double (str::parse::<f64> followed by to_string) yields a text unrelated to the input, "
+                             "confirmed or refuted natively over a pool of inputs")
+
+    def mk_xsd(kind, ki, kf):
+        def setup(ex, st):
+            neg = z3.Bool(ex.fresh_name("neg"))
+            a = ex.fresh_int(st, "u128", "int_digits", constrain=False)
+            ex.assume(st, z3.And(a.e >= (10 ** (ki - 1) if ki > 1 else 0), a.e < 10 ** ki))
+            atoms = [("sign", neg), ("digits", a.e, ki)]
+            inputs = dict(neg=neg, int_digits=a.e, ki=ki, kf=kf, kind=kind)
+            if kf:
+                b = ex.fresh_int(st, "u128", "frac_digits", constrain=False)
+                ex.assume(st, z3.And(b.e >= 0, b.e < 10 ** kf))
+                atoms += [("lit", "."), ("digits", b.e, kf)]
+                inputs["frac_digits"] = b.e
+            inputs["_atoms"] = atoms
+            text = A.mk(atoms)
+
+            def m_parse_number(ex, st, callee, args, dest_ty):
+                t = deref(ex, st, args[0])
+                st.log.append(("parsed", t))
+                yield st, En("Result", z3.IntVal(0), {"Ok": (Opaque("FeelNumber", "parsed"),)})
+
+            def m_parse_f64(ex, st, callee, args, dest_ty):
+                st.log.append(("binary", callee))
+                yield st, En("Result", z3.IntVal(0), {"Ok": (Opaque("f64", "binary"),)})
+
+            def m_f64_pred(ex, st, callee, args, dest_ty):
+                yield st, mk_bool(callee.endswith("is_finite"))
+
+            def m_f64_text(ex, st, callee, args, dest_ty):
+                yield st, A.mk([("lit", "<shortest round-trip text of a binary double>")])
+
+            def m_trim(ex, st, callee, args, dest_ty):
+                yield st, args[0]
+
+            def runner(ex, st):
+                ex.models[:0] = [(re.compile(r"^core::str::<impl str>::parse::<(dmntk_feel_number::)?FeelNumber>$|^<FeelNumber as FromStr>::from_str$"), m_parse_number),
+                                 (re.compile(r"^core::str::<impl str>::parse::<f(32|64)>$|^<f(32|64) as FromStr>::from_str$"), m_parse_f64),
+                                 (re.compile(r"^(std|core)::f(32|64)::<impl f(32|64)>::(is_finite|is_nan|is_infinite)$"), m_f64_pred),
+                                 (re.compile(r"^<f(32|64) as ToString>::to_string$"), m_f64_text),
+                                 (re.compile(r"^core::str::<impl str>::trim(_start|_end)?$"), m_trim)]
+                yield from ex.run("Value::try_from_xsd_" + kind, [text], st)
+            return runner, None, inputs
+
+        def post(ex, o, v):
+            calls = [e[1] for e in o.st.log if e[0] == "parsed"]
+            r = o.value
+            same = z3.BoolVal(False)
+            if len(calls) == 1:
+                same = same_atoms(A.atoms_of(calls[0]), v["_atoms"])
+            okv = z3.BoolVal(False)
+            if "Ok" in r.alts:
+                val = r.alts["Ok"][0]
+                if isinstance(val, En) and "Number" in val.alts and isinstance(val.alts["Number"][0], Opaque) and val.alts["Number"][0].e == "parsed":
+                    okv = z3.And(r.disc == 0, val.disc == U_NUMBER)
+            return [("the text given to the decimal library is the typed input text itself, digit for digit", same),
+                    ("the typed value is the number parsed from it", okv)]
+
+        def desc(m, v):
+            return {k: model_value(m, x) for k, x in v.items() if not k.startswith("_")}
+
+        def replay(i, rb):
+            from fractions import Fraction
+            cands = []
+            base = ("-" if i["neg"] else "") + str(i["int_digits"]).rjust(ki, "0") + (("." + str(i.get("frac_digits", 0)).rjust(kf, "0")) if kf else "")
+            cands.append(base)
+            # same shape, digits that a binary double cannot hold
+            pat = "9007199254740993123456789012345678"
+            cands.append(("-" if i["neg"] else "") + (pat[:ki] if ki > 1 else "7") + (("." + "1234567890123456789012345678901234"[:kf]) if kf else ""))
+            last = (False, "")
+            for t in dict.fromkeys(cands):
+                _, out, _ = replay_call(rb, ["xsd", kind, t])
+                got = out[6:].strip() if out.startswith("VALUE ") else None
+                digits = t.replace("-", "").replace(".", "").lstrip("0")
+                try:
+                    bad = got is None or Fraction(got) != Fraction(t)
+                except Exception:
+                    bad = True
+                if len(digits) > 34:
+                    bad = False
+                last = (bad, "xsd:%s %s -> %s" % (kind, t, out[:70]))
+                if bad:
+                    return last
+            return last
+        jobs.append(lambda c: decide(c, crate_feel, "typed_input/xsd_%s/%d_%d" % (kind, ki, kf), setup, post, replay, rb, models=A.ATOM_MODELS, unwind=6, describe=desc, max_cex=2))
+    import feelvals as _fv
+    U_NUMBER = _fv.Universe(mirror).idx("Number")
+    for kind in ("integer", "decimal", "double"):
+        for ki, kf in ((1, 0), (20, 0)) if kind == "integer" else ((1, 1), (1, 33), (17, 17), (20, 0)):
+            mk_xsd(kind, ki, kf)
     run_parallel(check, jobs)
 
 
